@@ -25,7 +25,7 @@ def place(demo, wt):
     src = open(demo).read()
     m = re.search(r"^package\s+(\w+)", src, re.M)
     pkg = m.group(1).replace("_test", "")
-    target = {"controller": "controller", "replica": "replica", "rpc": "rpc", "rest": None, "sync": "sync", "main": None}.get(pkg)
+    target = {"controller": "controller", "replica": "replica", "rpc": "rpc", "rest": None, "sync": "sync", "remote": "backend/remote", "main": None}.get(pkg)
     if target is None and pkg == "rest":
         # rest packages: decide by what the demo uses
         target = "replica/rest" if "replica.NewServer" in src or "jiva/replica\"" in src else "controller/rest"
@@ -34,7 +34,8 @@ def place(demo, wt):
     dst = os.path.join(wt, target, os.path.basename(demo))
     shutil.copyfile(demo, dst)
     tests = re.findall(r"^func (Test\w+)\(", src, re.M)
-    return target, tests
+    tags = "debug" if re.search(r"^//go:build .*\bdebug\b", src, re.M) else ""
+    return target, tests, tags
 
 
 def main():
@@ -50,8 +51,8 @@ def main():
         def run_demos():
             ok = True
             out_all = ""
-            for target, tests in placed:
-                rc, out = sh(["go", "test", "-vet=off", "-count=1", "-run", "^(%s)$" % "|".join(tests), "./" + target + "/"], cwd=wt, timeout=1200)
+            for target, tests, tags in placed:
+                rc, out = sh(["go", "test"] + (["-tags", tags] if tags else []) + ["-vet=off", "-count=1", "-run", "^(%s)$" % "|".join(tests), "./" + target + "/"], cwd=wt, timeout=1200)
                 out_all += out[-1500:]
                 ok = ok and rc == 0
             return ok, out_all
@@ -69,7 +70,7 @@ def main():
         ran.append("demo with the change: %s" % ("pass" if ok1 else "fail (as required)"))
         res["confirmed"] = bool(ok0 and rcb == 0 and rcu == 0 and not ok1)
         # the demos must not be compiled into the harness: remove them before running the checks
-        for (target, tests), d in zip(placed, demos):
+        for (target, tests, tags), d in zip(placed, demos):
             os.remove(os.path.join(wt, target, os.path.basename(d)))
         for pid in pids:
             t0 = time.time()
